@@ -97,7 +97,7 @@ func (n noSeekFile) Close() error                                { return n.c.Cl
 func (n noSeekFile) ReadDir(k int) ([]hackpadfs.DirEntry, error) { return n.c.ReadDir(k) }
 
 var c10sizes = []int{0, 1, 511, 512, 513, 1024, 5000, 70000}
-var c10policies = []string{"always", "never", "by-name", "by-size"}
+var c10policies = []string{"always", "never", "by-name", "by-size", "once"}
 
 type c10case struct {
 	Policy   string `json:"policy"`
@@ -110,7 +110,7 @@ func c10cases(env *core.Env) []c10case {
 	var cs []c10case
 	n := env.Pick(10000, 60000)
 	for i := 0; i < n; i++ {
-		cs = append(cs, c10case{Policy: c10policies[i%4], Store: []string{"mem", "minimal"}[(i/4)%2], NoSeek: (i/8)%3 == 2, TreeSeed: int64(i)})
+		cs = append(cs, c10case{Policy: c10policies[i%5], Store: []string{"mem", "minimal"}[(i/5)%2], NoSeek: (i/10)%3 == 2, TreeSeed: int64(i)})
 	}
 	return cs
 }
@@ -196,6 +196,19 @@ func c10retain(policy string) func(string, hackpadfs.FileInfo) bool {
 		}
 	case "by-size":
 		return func(_ string, info hackpadfs.FileInfo) bool { return info.Size() <= 512 }
+	case "once":
+		// a policy whose answer changes over time (a budget that is used up): yes the first time it is asked about a
+		// name, no ever after. The cache asks when it is about to copy a file, so every file is retained by its first
+		// Open - and a retained file is served from the cache store, whatever the policy would say by now.
+		var mu sync.Mutex
+		asked := map[string]bool{}
+		return func(name string, _ hackpadfs.FileInfo) bool {
+			mu.Lock()
+			defer mu.Unlock()
+			first := !asked[name]
+			asked[name] = true
+			return first
+		}
 	}
 	return nil // default: always
 }
@@ -417,6 +430,9 @@ func c10run(env *core.Env, idx int) core.CaseResult {
 	if len(res.Violations) == 0 && idx%10 == 3 {
 		c10oslinks(env, cs, &res)
 	}
+	if len(res.Violations) == 0 && idx%10 == 7 {
+		c10understated(cs, &res)
+	}
 	res.Count("policy:"+cs.Policy, 1)
 	for _, f := range tree.files {
 		res.Count(fmt.Sprintf("files_of_size_%d", tree.size[f]), 1)
@@ -425,6 +441,101 @@ func c10run(env *core.Env, idx int) core.CaseResult {
 		res.Sample = map[string]any{"case": cs, "files": tree.size, "script": fsx.HistoryString(script)}
 	}
 	return res
+}
+
+// understatedSource: the files' Stat reports fewer bytes than reading them delivers (0, or half) - what files of procfs
+// and sysfs, growing logs and generated streams do. What a file holds is what reading it to the end delivers.
+type understatedSource struct {
+	inner hackpadfs.FS
+	zero  bool
+}
+
+type understatedFile struct {
+	hackpadfs.File
+	zero bool
+}
+
+type understatedInfo struct {
+	hackpadfs.FileInfo
+	size int64
+}
+
+func (i understatedInfo) Size() int64 { return i.size }
+
+func (s understatedSource) Open(name string) (hackpadfs.File, error) {
+	f, err := s.inner.Open(name)
+	if err != nil {
+		return nil, err
+	}
+	return &understatedFile{File: f, zero: s.zero}, nil
+}
+
+func (f *understatedFile) Stat() (hackpadfs.FileInfo, error) {
+	info, err := f.File.Stat()
+	if err != nil || info.IsDir() {
+		return info, err
+	}
+	if f.zero {
+		return understatedInfo{info, 0}, nil
+	}
+	return understatedInfo{info, info.Size() / 2}, nil
+}
+
+func (f *understatedFile) Seek(off int64, whence int) (int64, error) {
+	return hackpadfs.SeekFile(f.File, off, whence)
+}
+
+func (f *understatedFile) ReadDir(n int) ([]hackpadfs.DirEntry, error) {
+	return hackpadfs.ReadDirFile(f.File, n)
+}
+
+// c10understated: every Open of a file through the cache (the first, which copies, and two later ones) delivers all the
+// bytes reading the source file delivers, also when the source's Stat understates the size.
+func c10understated(cs c10case, res *core.CaseResult) {
+	src, _ := mem.NewFS()
+	sizes := []int{1, 512, 513, 5000}
+	for _, n := range sizes {
+		if err := hackpadfs.WriteFullFile(src, fmt.Sprintf("f%d", n), c11data(n), 0o644); err != nil {
+			res.Inconclusive = err.Error()
+			return
+		}
+	}
+	for _, zero := range []bool{true, false} {
+		store, _ := mem.NewFS()
+		var c *cache.ReadOnlyFS
+		var err error
+		opts := cache.ReadOnlyOptions{RetainData: c10retain(cs.Policy)}
+		if cs.Store == "minimal" {
+			c, err = cache.NewReadOnlyFS(understatedSource{src, zero}, &minimalStore{store}, opts)
+		} else {
+			c, err = cache.NewReadOnlyFS(understatedSource{src, zero}, store, opts)
+		}
+		if err != nil {
+			res.Inconclusive = err.Error()
+			return
+		}
+		for _, n := range sizes {
+			name := fmt.Sprintf("f%d", n)
+			want := c11data(n)
+			for open := 1; open <= 3; open++ {
+				var got []byte
+				var rerr error
+				if p := core.Recover(func() { got, rerr = readAll(c, name) }); p != "" {
+					res.Violate(fmt.Sprintf("C10|%s,%s|understated-size|panic", cs.Policy, cs.Store), fmt.Sprintf("Open #%d of %q (a source file whose Stat understates its size) panicked: %s", open, name, p), cs)
+					break
+				}
+				res.Count("understated_size_opens", 1)
+				if rerr != nil || string(got) != string(want) {
+					says := "0"
+					if !zero {
+						says = fmt.Sprint(n / 2)
+					}
+					res.Violate(fmt.Sprintf("C10|%s,%s|understated-size|bytes", cs.Policy, cs.Store), fmt.Sprintf("the source file %q delivers %d bytes when read (its Stat says %s); Open #%d through the cache delivered %d bytes (err %v)", name, n, says, open, len(got), rerr), cs)
+					break
+				}
+			}
+		}
+	}
 }
 
 // c10concurrent: several files are opened for the first time at once through a fresh cache (the source yields between
